@@ -159,11 +159,11 @@ type Runner struct {
 	commits []common.Hash
 	dead    bool // a panic left some StateDB half-updated: stop
 	// ---- bookkeeping used ONLY to decide whether a failure has the exact shape of a known defect
-	hist     []Op                       // ops applied so far (successful or not)
-	orphan   map[orphanKey]orphanInfo   // live, modified, not dirty, callback consumed: since which op
-	snaps    map[int][]snapHidden       // live snapshots per StateDB with the hidden state when taken
-	finTrue  map[int]bool               // a Finalise/IntermediateRoot/Commit(true) ran on this StateDB (or its Copy source)
-	lastFinB map[int]int                // last finalise-like flag on this StateDB: 0 none, 1 false, 2 true
+	hist     []Op                     // ops applied so far (successful or not)
+	orphan   map[orphanKey]orphanInfo // live, modified, not dirty, callback consumed: since which op
+	snaps    map[int][]snapHidden     // live snapshots per StateDB with the hidden state when taken
+	finTrue  map[int]bool             // a Finalise/IntermediateRoot/Commit(true) ran on this StateDB (or its Copy source)
+	lastFinB map[int]int              // last finalise-like flag on this StateDB: 0 none, 1 false, 2 true
 }
 
 type orphanKey struct {
@@ -581,11 +581,17 @@ func renderCommitted(db state.Database, root common.Hash) string {
 }
 
 // freshRoot: root of a brand-new StateDB holding exactly what s's getters report
-func freshFrom(s *state.StateDB) (*state.StateDB, common.Hash) {
-	f, _ := state.New(common.Hash{}, state.NewDatabase(aquadb.NewMemDatabase()))
+// Accounts whose visible balance is negative cannot be encoded at all: they are left out and
+// returned in neg (such an account can never be what the trie holds).
+func freshFrom(s *state.StateDB) (f *state.StateDB, root common.Hash, neg []int64) {
+	f, _ = state.New(common.Hash{}, state.NewDatabase(aquadb.NewMemDatabase()))
 	for _, a := range addrs {
 		ad := addrOf(a)
 		if !s.Exist(ad) {
+			continue
+		}
+		if s.GetBalance(ad).Sign() < 0 {
+			neg = append(neg, a)
 			continue
 		}
 		f.CreateAccount(ad)
@@ -600,11 +606,8 @@ func freshFrom(s *state.StateDB) (*state.StateDB, common.Hash) {
 			}
 		}
 	}
-	var root common.Hash
-	if p, _ := vh.CatchPanic(func() { root = f.IntermediateRoot(false) }); p {
-		return f, common.Hash{} // e.g. a negative balance: no root exists for this content
-	}
-	return f, root
+	root = f.IntermediateRoot(false)
+	return f, root, neg
 }
 
 func leafStr(s *state.StateDB, a int64) string {
@@ -626,7 +629,6 @@ type snapRec struct {
 	id    int64
 	opIdx int
 	obs   string
-	known map[int64]string // known defect class already affecting an address when the snapshot was taken
 }
 
 type Checker struct {
@@ -670,7 +672,20 @@ func (k *Checker) runProgram(class string, prog []Op, withModel bool) {
 		}
 		return m
 	}
-	classify := func(st *state.StateDB, sid int, a int64) string { return r.classify(sid, a) }
+	// report: every differing address must be explained by a known defect whose exact shape the hidden
+	// state and the history of that address have; anything else gets a signature embedding the history
+	report := func(diff []int64, sid int, oracle, what string, detail func(a int64) map[string]interface{}) {
+		for _, a := range diff {
+			sig := ""
+			if a != 0 {
+				sig = r.classify(sid, a)
+			}
+			if sig == "" {
+				sig = fmt.Sprintf("%s/%d/%s", oracle, a, ptxt)
+			}
+			c.Violate(sig, fmt.Sprintf("%s (address %d)", what, a), replayObj(detail(a)))
+		}
+	}
 	nontriv := ""
 	for idx, o := range prog {
 		ans, root := r.apply(o)
@@ -723,11 +738,7 @@ func (k *Checker) runProgram(class string, prog []Op, withModel bool) {
 		case "snapshot":
 			var id int64
 			fmt.Sscanf(ans, "id 0x%x", &id)
-			kn := map[int64]string{}
-			for _, a := range addrs {
-				kn[a] = r.classify(o.S, a)
-			}
-			live[o.S] = append(live[o.S], snapRec{id, idx, pubObs(st), kn})
+			live[o.S] = append(live[o.S], snapRec{id, idx, pubObs(st)})
 		case "revert":
 			l := live[o.S]
 			for i := range l {
@@ -736,16 +747,7 @@ func (k *Checker) runProgram(class string, prog []Op, withModel bool) {
 					k.nOracle["O1"]++
 					now := pubObs(st)
 					if now != l[i].obs {
-						sig := "revert-observable/" + ptxt
-						bw, aw := strings.Split(l[i].obs, " "), strings.Split(now, " ")
-						for x, a := range addrs {
-							if x < len(bw) && x < len(aw) && bw[x] != aw[x] {
-								if l[i].known[a] != "" {
-									sig = l[i].known[a]
-								}
-								break
-							}
-						}
+						sig := "revert-observable/" + ptxt // never a known class: histories end at the first K5 state
 						c.Violate(sig, "a public getter differs between Snapshot and RevertToSnapshot",
 							replayObj(map[string]interface{}{"snapshot_at": l[i].opIdx, "revert_at": idx, "before": l[i].obs, "after": now}))
 					}
@@ -761,19 +763,15 @@ func (k *Checker) runProgram(class string, prog []Op, withModel bool) {
 			// O4
 			k.nOracle["O4"]++
 			src, dst := r.sts[o.S], r.sts[o.Dst]
+			diff := []int64{}
 			for _, a := range addrs {
-				x, y := pubAddr(src, a), pubAddr(dst, a)
-				// Copy does not carry the suicided flag of non-dirty objects etc.; compare everything public
-				if x != y {
-					sig := classify(src, o.S, a)
-					if sig == "" {
-						sig = "copy-obs/" + ptxt
-					}
-					c.Violate(sig, "Copy() reads differently from the original at address "+fmt.Sprint(a),
-						replayObj(map[string]interface{}{"at": idx, "address": a, "original": x, "copy": y}))
-					break
+				if pubAddr(src, a) != pubAddr(dst, a) {
+					diff = append(diff, a)
 				}
 			}
+			report(diff, o.S, "copy-obs", "Copy() reads differently from the original", func(a int64) map[string]interface{} {
+				return map[string]interface{}{"at": idx, "address": a, "original": pubAddr(src, a), "copy": pubAddr(dst, a)}
+			})
 			if pubTail(src) != pubTail(dst) {
 				c.Violate("copy-obs-tail/"+ptxt, "Copy() differs in refund/logs/preimages", replayObj(map[string]interface{}{"at": idx, "original": pubTail(src), "copy": pubTail(dst)}))
 			}
@@ -781,28 +779,24 @@ func (k *Checker) runProgram(class string, prog []Op, withModel bool) {
 		if o.K == "iroot" || o.K == "commit" {
 			// O3: the root commits to what the getters show
 			k.nOracle["O3"]++
-			f, froot := freshFrom(st)
+			f, froot, neg := freshFrom(st)
 			if froot != root {
-				sig, bad := "", int64(0)
+				diff := append([]int64{}, neg...)
 				for _, a := range addrs {
-					if leafStr(f, a) != leafStr(st, a) {
-						bad = a
-						sig = classify(st, o.S, a)
-						break
+					isNeg := false
+					for _, n := range neg {
+						isNeg = isNeg || n == a
+					}
+					if !isNeg && leafStr(f, a) != leafStr(st, a) {
+						diff = append(diff, a)
 					}
 				}
-				if sig == "" {
-					for _, a := range addrs {
-						if sig == "" {
-							sig, bad = classify(st, o.S, a), a
-						}
-					}
+				if len(diff) == 0 {
+					diff = []int64{0} // roots differ but no leaf of the universe does: never a known class
 				}
-				if sig == "" {
-					sig = "root-not-content/" + ptxt
-				}
-				c.Violate(sig, fmt.Sprintf("%s root is not the root of the content the getters report (address %d: trie leaf %s, getters %s)", o.K, bad, leafStr(st, bad), leafStr(f, bad)),
-					replayObj(map[string]interface{}{"at": idx, "address": bad, "root": root.Hex(), "root_of_content": froot.Hex(), "getters": pubObs(st)}))
+				report(diff, o.S, "root-not-content", o.K+" root is not the root of the content the getters report", func(a int64) map[string]interface{} {
+					return map[string]interface{}{"at": idx, "address": a, "trie_leaf": leafStr(st, a), "getters": leafStr(f, a), "root": root.Hex(), "root_of_content": froot.Hex()}
+				})
 			}
 			nontriv += "f"
 		}
@@ -814,17 +808,15 @@ func (k *Checker) runProgram(class string, prog []Op, withModel bool) {
 				c.Violate("reopen-fails/"+ptxt, "state.New at a committed root fails: "+err.Error(), replayObj(nil))
 			} else {
 				x, y := persObs(st), persObs(re)
+				diff := []int64{}
 				for i, a := range addrs {
 					if x[i] != y[i] {
-						sig := classify(st, o.S, a)
-						if sig == "" {
-							sig = "commit-reopen/" + ptxt
-						}
-						c.Violate(sig, fmt.Sprintf("state reopened at the committed root reads differently at address %d", a),
-							replayObj(map[string]interface{}{"at": idx, "address": a, "committed_statedb": x[i], "reopened": y[i]}))
-						break
+						diff = append(diff, a)
 					}
 				}
+				report(diff, o.S, "commit-reopen", "state reopened at the committed root reads differently", func(a int64) map[string]interface{} {
+					return map[string]interface{}{"at": idx, "address": a, "committed_statedb": pubAddr(st, a), "reopened": pubAddr(re, a)}
+				})
 			}
 		}
 		// beyond this point the implementation is internally inconsistent (stateObjects says deleted, the
@@ -833,13 +825,13 @@ func (k *Checker) runProgram(class string, prog []Op, withModel bool) {
 		k5 := false
 		for sid := range r.sts {
 			for _, a := range addrs {
-				if r.classify(sid, a) == "deleted-object-rewritten-by-later-finalise" {
+				if r.classify(sid, a) == sigK5 {
 					k5 = true
 				}
 			}
 		}
 		if k5 {
-			c.Violate("deleted-object-rewritten-by-later-finalise", "a state object deleted by Finalise(true) was written back into the account trie by a later Finalise/Commit(false): getters say it does not exist, the root says it does",
+			c.Violate(sigK5, "a state object deleted by Finalise(true) was written back into the account trie by a later Finalise/Commit(false): getters say it does not exist, the root says it does",
 				replayObj(map[string]interface{}{"at": idx}))
 			c.Count("program-ended-by-rewritten-deleted-object")
 			prog = prog[:idx+1]
@@ -879,12 +871,17 @@ func (k *Checker) checkNeutral(prog []Op, i, j, sid int, ptxt string) {
 				return
 			}
 			sa, sb := ra.sts[sid], rb.sts[sid]
-			// hidden state before the continuation, per address: known-class explanation, orphan, dirty
+			// hidden state before the continuation: does a known defect (exact shape, see classify)
+			// already affect the address on either side?
 			preA, preB := map[int64]string{}, map[int64]string{}
-			orphB, dirtyA := map[int64]bool{}, map[int64]bool{}
+			hidA, hidB := map[int64]hid{}, map[int64]hid{}
+			if w != 0 { // the continuation write is part of the history the shapes are judged on
+				cont := Op{K: "addbal", S: sid, A: w, V: "1"}
+				ra.hist, rb.hist = append(ra.hist, cont), append(rb.hist, cont)
+			}
 			for _, a := range addrs {
 				preA[a], preB[a] = ra.classify(sid, a), rb.classify(sid, a)
-				orphB[a], dirtyA[a] = isOrphan(sb, a), sa.VerifIsDirty(addrOf(a))
+				hidA[a], hidB[a] = hidOf(sa, a), hidOf(sb, a)
 			}
 			if w != 0 {
 				sa.AddBalance(addrOf(w), big.NewInt(1))
@@ -902,49 +899,53 @@ func (k *Checker) checkNeutral(prog []Op, i, j, sid int, ptxt string) {
 			if rootA == rootB {
 				continue
 			}
-			bad := int64(0)
+			// register the finalise-like call so that classify sees the flag (K5 shape)
+			fin := Op{K: "iroot", S: sid, B: b}
+			ra.hist, rb.hist = append(ra.hist, fin), append(rb.hist, fin)
+			ra.track(fin, "root")
+			rb.track(fin, "root")
+			diff := []int64{}
 			for _, a := range addrs {
 				if leafStr(sa, a) != leafStr(sb, a) {
-					bad = a
-					break
+					diff = append(diff, a)
 				}
 			}
-			sig := ""
-			_, inB := sb.VerifLeaf(addrOf(bad))
-			postA, postB := ra.classify(sid, bad), rb.classify(sid, bad)
-			const rewritten = "deleted-object-rewritten-by-later-finalise"
-			switch {
-			case postA == rewritten || postB == rewritten:
-				sig = rewritten
-			case orphB[bad] && dirtyA[bad] && postA != rewritten && postB != rewritten && preA[bad] == "":
-				// only reachable when an object is dirty AND armed (Copy re-arms dirty objects)
-				sig = "reverted-touch-undirties-dirty-object"
-			case preA[bad] != "" || preB[bad] != "":
-				// the differing address was already in a known defective hidden state before the
-				// continuation (unmarked write / re-written deleted object); the revert only exposes it
-				sig = preA[bad]
-				if sig == "" {
-					sig = preB[bad]
-				}
-			case b && leafEmpty(sa, bad) && !inB:
-				touchOnly := true
-				for _, o := range prog[i+1 : j] {
-					if o.S == sid && o.A == bad && !(o.K == "addbal" && bigOf(o.V).Sign() == 0) {
-						touchOnly = false
+			if len(diff) == 0 {
+				diff = []int64{0}
+			}
+			for _, bad := range diff {
+				sig := ""
+				_, inB := sb.VerifLeaf(addrOf(bad))
+				touch, other := rb.region(sid, bad, i, j)
+				switch {
+				case bad == 0:
+				case ra.classify(sid, bad) == sigK5 || rb.classify(sid, bad) == sigK5:
+					// one side re-wrote a deleted object into the trie in this very IntermediateRoot(false)
+					sig = sigK5
+				case preA[bad] != "" || preB[bad] != "":
+					// the address was already in a known defective hidden state before the continuation
+					// (unmarked write with the K2/K3/K6 shape); the root difference is its consequence
+					sig = preA[bad]
+					if sig == "" {
+						sig = preB[bad]
+					}
+				case b && hidA[bad].inTrie && hidA[bad].leafEmpty && !hidA[bad].dirty && leafEmpty(sa, bad) && !inB && hidB[bad].dirty && (touch || other):
+					// a pre-existing EMPTY, clean account; the reverted region wrote to it; after the revert it is
+					// still empty (same getters) but left in the dirty set, so IntermediateRoot(true) deletes it
+					if bad == 3 && touch && !other {
+						sig = sigK4 // journal.go: touchChange.undo deliberately skips the ripemd address
+					} else if other {
+						sig = sigK1
 					}
 				}
-				if bad == 3 && touchOnly {
-					sig = "ripemd-touch-survives-revert"
-				} else {
-					sig = "revert-leaves-dirty-empty-account-deleted"
+				if sig == "" {
+					sig = fmt.Sprintf("revert-neutral/%v/%d/%d-%d/%d/%s", b, w, i, j, bad, ptxt)
 				}
-			default:
-				sig = fmt.Sprintf("revert-neutral/%v/%d/%d-%d/%s", b, w, i, j, ptxt)
+				c.Violate(sig, fmt.Sprintf("IntermediateRoot(%v) after [ops up to the snapshot%s] differs from IntermediateRoot after [ops through the revert%s]: address %d leaf %s vs %s",
+					b, contS(w), contS(w), bad, leafStr(sa, bad), leafStr(sb, bad)),
+					map[string]interface{}{"program": prog, "text": ptxt, "snapshot_at": i, "revert_at": j, "delete_empty": b, "continuation_addbalance_1_to": w,
+						"root_without_the_reverted_ops": rootA.Hex(), "root_with_them": rootB.Hex()})
 			}
-			c.Violate(sig, fmt.Sprintf("IntermediateRoot(%v) after [ops up to the snapshot%s] differs from IntermediateRoot after [ops through the revert%s]: address %d leaf %s vs %s",
-				b, contS(w), contS(w), bad, leafStr(sa, bad), leafStr(sb, bad)),
-				map[string]interface{}{"program": prog, "text": ptxt, "snapshot_at": i, "revert_at": j, "delete_empty": b, "continuation_addbalance_1_to": w,
-					"root_without_the_reverted_ops": rootA.Hex(), "root_with_them": rootB.Hex()})
 		}
 	}
 }
@@ -1118,7 +1119,7 @@ func main() {
 	for _, x := range [][]byte{{}, {0x60, 0x01}, c.Rng.Bytes(137)} {
 		c.Correspond("crypto.Keccak256~Lib.Keccak.keccak256", vh.Hex(x), vh.Hex(crypto.Keccak256(x)), m.Ask("keccak "+vh.Hex(x)))
 	}
-	c.Assume("Go map iteration order (stateObjectsDirty, stateObjects, dirtyStorage) is whatever the runtime picked in this run; the model takes the order as an argument but no permutation theorem is proved yet")
+	c.Assume("Go map iteration order (stateObjectsDirty, stateObjects, dirtyStorage) is whatever the runtime picked in this run; all orders are covered by C09_finalise_perm, C09_update_trie_perm, C09_commit_root_perm")
 	c.Assume("balances may be negative (StateDB never checks): folding one panics in rlp; model and implementation agree on that")
 	if c.Replay != "" {
 		raw, err := os.ReadFile(c.Replay)
@@ -1148,11 +1149,8 @@ func main() {
 		c.Sample(map[string]string{"directed": n, "history": progString(d[n])})
 	}
 	nprog := c.Scale(260, 6000)
-	// vh.NewRNG(seed) streams of consecutive seeds are shifts of one another; fork once
-	// through the output mixer so that different seeds give unrelated histories
-	rng := c.Rng.Fork()
 	for i := 0; i < nprog; i++ {
-		r := rng.Fork()
+		r := c.Rng.Fork()
 		p := prelude(r)
 		p = genBody(r, len(p)+25+r.Intn(36), p)
 		class := "random/single-statedb"
